@@ -353,6 +353,17 @@ def run_shard(spec, seed, col, tier):
                 nt += 1
             for sig, detail in res or []:
                 col.fail(sig, {'k': spec['k'], 'elems': [good[i].hex(), good[j].hex()]}, detail)
+        # an element the decoder refuses on its own is refused in company too (decode(a || e) defined while decode(e) is
+        # not would make the meaning of e depend on its neighbour)
+        for e in [x for x in pool if not dec(f, x)[0]]:
+            for a in good[:60]:
+                for whole, order in ((a + e, 'after'), (e + a, 'before')):
+                    ok, v = dec(f, whole)
+                    n += 1
+                    if ok:
+                        col.fail('%s:not-compositional:refused-alone-accepted-%s-a-neighbour' % (spec['k'], order),
+                                 {'k': spec['k'], 'elems': [a.hex(), e.hex()] if order == 'after' else [e.hex(), a.hex()], 'alone': e.hex()},
+                                 'decode(%s) raises, decode(%s) = %r' % (e.hex(), whole.hex(), v))
         col.bulk(n, nt, label='pairs:' + spec['k'], sample={'k': spec['k'], 'elems': [good[0].hex(), good[-1].hex()]} if good else None)
     elif kind == 'tuples':
         names = sorted(kinds())
@@ -449,6 +460,12 @@ def run_shard(spec, seed, col, tier):
 def replay(case):
     if 'idxs' in case:
         return check_perm(case['idxs'], case['perm'], case.get('insert'), case.get('asn4', True)) or []
+    if case.get('alone'):
+        f, pool, mode = kinds()[case['k']]
+        whole = b''.join(bytes.fromhex(x) for x in case['elems'])
+        if not dec(f, bytes.fromhex(case['alone']))[0] and dec(f, whole)[0]:
+            return [('%s:not-compositional:refused-alone-accepted-%s-a-neighbour' % (case['k'], 'after' if case['elems'][-1] == case['alone'] else 'before'), 'decode(%s) raises, decode(%s) does not' % (case['alone'], whole.hex()))]
+        return []
     if case.get('insert') is True:
         f, pool, mode = kinds()[case['k']]
         a, u, b = [bytes.fromhex(x) for x in case['elems']]
